@@ -18,6 +18,18 @@
   would then also be faithful — `relabel_faithful_iff_join` — but neither the follower
   nor the protocol knows the switch offset, so the repaired code discards; the property
   demands faithfulness, which discarding always satisfies.)
+
+  Consequence to keep in mind: at every fail-over of the source the leader relabels its
+  cache while every follower deletes its whole copy and restarts at the leader's newest
+  offset without a snapshot; HANDOVER is not reachable across a fail-over, and an ahead
+  follower that meets a leader whose input has already moved on gets CLEAR and deletes
+  (`clear_deletes_any`).
+
+  Undischarged hypothesis of the session theorems: `hq : (V 0).l2.cur ≠ "?"` — the leader's
+  channel run id is never the literal "?" (listed in the check's assumptions).
+  "Is offered leadership": follower side `ahead_gets_handover`, leader side
+  `handover_leader_steps_down` (Sync stops the syncer); what runCluster does afterwards is
+  outside the model (the check's `partial`).
 -/
 import GunYu.Model.Replica
 import GunYu.Proofs.Replica
@@ -235,7 +247,10 @@ theorem others_untouched {β : Type} (bk : Backend) (V : Nat → View β) (F : S
 /-- **unjoinable_discards**, session level: the leader serves `x`, the follower's current
     copy is `y ≠ x` and it holds nothing for `x`. As soon as the handshake has been delivered
     (`cut ≥ 1`), and wherever the session is cut afterwards, no directory `y` is left — the
-    old copy is gone for good, it does not come back under any id. -/
+    old copy is gone for good, it does not come back under any id. (Static leader. When the
+    disk follower DOES hold a directory `x`, `StartPoint` switches to it and the directory `y`
+    stays on disk, unchanged and under its own id — `others_untouched` — it is merely no
+    longer current.) -/
 theorem unjoinable_discards_session {β : Type} (bk : Backend) (L : Leader β) (F : Store β)
     (ch : List Nat) (c lost fuel : Nat) (x y : Id) (hs : Serves L x)
     (hx1 : x ≠ "") (hx2 : x ≠ "?") (hy : y = F.cur) (hy0 : y ≠ "") (hyx : y ≠ x)
@@ -251,7 +266,8 @@ theorem unjoinable_discards_session {β : Type} (bk : Backend) (L : Leader β) (
   · exact hyx (hpy ▸ h)
   · exact (getD_none.mp hu.2.2.1) p h hpy
 
-/-- **gap_discards** (`preSync`, the 10 MiB rule): same run id, the leader is more than
+/-- **gap_discards** (a lemma about the function `preSync`; the session-level consequence is
+    `gap_discards_session`; the 10 MiB rule): same run id, the leader is more than
     10 MiB ahead of the follower's end: the follower deletes its copy and asks for the
     leader's offset. (At 10 MiB or less it keeps it and asks for its own end.) -/
 theorem gap_discards {β : Type} (bk : Backend) (F : Store β) (x : Id) (e : Data β) (loff : Int)
